@@ -29,7 +29,11 @@ def run(ctx):
                    minimum=2)
     rcf = ctx.rule('R-CASFRESH', 'every retry of a compare-exchange re-tests the refreshed expected value against the '
                    'sentinels the first attempt tested', minimum=0)
+    ron = ctx.rule('R-ONENODE', 'a combinator callback node is registered on at most one shared input (a shared core links its subscribers through the node\'s next pointer)', minimum=4)
     for cfg, fb in sorted(fbs.items()):
+        from rules import lib_when as _lw
+        if (ctx.guard(lambda: _lw.check_one_node(ctx, fb, ron)) or 0) < 2:
+            ctx.guard(lambda: ctx.broken('R-ONENODE: no StaticCombinator / SingleCombinator instantiation found'))
         ctx.guard(lambda: lib_order.check_cas_fresh(ctx, fb, rcf, lambda f: 'SetCallbackImpl' in f.qn))
         ctx.guard(lambda: lib_shape.check(ctx, fb, rsh, lambda qn: 'SetResultImpl' in qn, 2))
         ctx.guard(lambda: lib_core.check_commit(ctx, fb, rcm))
